@@ -114,7 +114,10 @@ inline std::vector<Op> g_history(Tape &t, int flavor = SEG_ANY, bool withObserve
       case 7: o.kind = 'D'; o.i = (int)t.below(pool); break;
       case 0: o.kind = 'R'; o.i = (int)t.below(pool); o.j = (int)t.below(pool); o.arg = (int)t.below(2); pool++; break;
       case 1: o.kind = 'B'; o.i = (int)t.below(pool); o.j = (int)t.below(pool); o.arg = (int)t.below(2); pool++; break;
-      case 2: o.kind = 'N'; o.i = (int)t.below(pool); o.arg = t.chance(1, 2) ? 63 : (t.chance(1, 2) ? 8 : (int)t.below(64)); break;
+      case 2: o.kind = 'N'; o.i = (int)t.below(pool); o.arg = t.chance(1, 2) ? 63 : (t.chance(1, 2) ? 8 : (int)t.below(64));
+        // one mask in twelve has bits beyond the documented six (what a later version of the header may define, or -1 for "all")
+        if (t.below(12) == 11) { static const int wide[] = {64, 127, 64 + 8, 128 + 4, 0x7fffffff, -1, 1 << 20, 255}; o.arg = wide[t.below(8)]; }
+        break;
       case 3: o.kind = 'O'; o.i = (int)t.below(pool); break;
       case 4: o.kind = 'P'; o.text = t.coin() ? g_ref(t, b, nullptr, flavor).text() : g_uri(t, flavor); pool++; break;
       default: {
